@@ -785,20 +785,22 @@ def judge (which : Which) (scn : SysCommon.Scn) (cfg : Cfg) (st : JStep) (pre : 
         if !hasCond cs "Paused" "True" && !(delegated && hasCond cs "Paused" "Unknown") then
           return some "bad paused-condition-missing"
         if !(cs.any fun c => c.1 == "Available") then return some "bad available-not-reported-while-paused"
-      -- the pause reaches every delegated phase: a phase object of this ObjectSet that exists and is not
-      -- paused yet is sent the pause patch in this very pass — whichever phase the pass stops at and
-      -- whatever the phase object has reported so far (otherwise its controller is free to keep writing)
-      if quiet st then
-        for ph in o.phases do
-          if ph.cls != "" then
-            match pre.w.phases (o.name ++ "-" ++ ph.name) with
-            | some po =>
-              if po.ctrlName == o.name && po.ctrlUID == o.uid && !po.paused && !po.deleting then
-                let patched := out.phaseEvents.any fun pe =>
-                  pe.startsWith "P " && pe.endsWith (s!"/{po.name} ok")
-                if !patched then
-                  return some s!"bad paused-pass-left-phase-object-unpaused {po.name} (phase events of the pass: {out.phaseEvents})"
-            | none => pure ()
+    -- the pause reaches every delegated phase: a phase object of this ObjectSet that exists and is not
+    -- paused yet is sent the pause patch in this very pass — whichever phase the pass stops at, whatever
+    -- the phase object has reported so far and whatever ERROR the pass ends in (preflight violation,
+    -- collision, ... — fix C09-b), otherwise its controller is free to keep writing.  Judged on every pass
+    -- that got as far as the phases (it ends `ok` or with a status update; the revision was assigned before).
+    if quiet st && o.revision != 0 && (out.res == "ok" || out.setEvents.any sOk) then
+      for ph in o.phases do
+        if ph.cls != "" then
+          match pre.w.phases (o.name ++ "-" ++ ph.name) with
+          | some po =>
+            if po.ctrlName == o.name && po.ctrlUID == o.uid && !po.paused && !po.deleting then
+              let patched := out.phaseEvents.any fun pe =>
+                pe.startsWith "P " && pe.endsWith (s!"/{po.name} ok")
+              if !patched then
+                return some s!"bad paused-pass-left-phase-object-unpaused {po.name} (phase events of the pass: {out.phaseEvents})"
+          | none => pure ()
     return none
 
 /-- walk the schedule; `implToks` are the implementation's per-step output tokens. -/
